@@ -413,8 +413,16 @@ class Gen:
             m.packet_id = r.choice((2 ** 32, None))
         if mode == "name":
             m.name = "NoSuchMessage"
+        if mode is None or mode not in BAD_MODES:
+            # what the generator MEANT to build, kept apart from the Message object (whose constructor / property setters are
+            # code under test): flags and appended acks as chosen above
+            INTENDED[id(m)] = (m, int(flags), tuple(m.acks) if flags & 0x10 else ())
+            if len(INTENDED) > 200000:
+                INTENDED.clear()
         return m
 
+
+INTENDED = {}
 
 BAD_MODES = ["rawbytes", "rawbytes", "rawjunk", "count", "range", "unset", "gap", "unknown_block", "extra_var", "extra256", "acks256", "ackrange",
              "acks_noflag", "flags256", "pid", "name"]
@@ -545,8 +553,12 @@ def expected_line(im: Impl, m) -> str:
     """what the decoded message must be, by the property statement: same header fields, the present blocks
     in template order, every set variable unchanged, every unset one the zero value at template width"""
     t = im.by_name[m.name]
-    toks = [m.name, str(int(m.send_flags)), str(int(m.packet_id)), bytes(m.extra).hex() or ".",
-            ",".join(str(int(a)) for a in m.acks) or ".", "."]
+    fl, ak = int(m.send_flags), tuple(m.acks)
+    rec = INTENDED.get(id(m))
+    if rec is not None and rec[0] is m:
+        fl = rec[1]
+    toks = [m.name, str(fl), str(int(m.packet_id)), bytes(m.extra).hex() or ".",
+            ",".join(str(int(a)) for a in ak) or ".", "."]
     present = [b for b in t.blocks if b.name in m._blocks]
     toks.append(str(len(present)))
     for b in present:
